@@ -72,6 +72,22 @@ def header_families(P, G, tier, scale=0, **kw):
     J += deepen(P, G, 'resp-hdrflags-cap0', lambda n: sc('resp', n, prefix=RESP_LINE_NOREASON, api='cfg', fl=RESP_HDR_SYM, cap=0),
                 range(T(tier, 5, 3), q(5, 7) + 1), T(tier, 120, 1200),
                 'response "HTTP/1.0 404\\n", 4 header options symbolic, every {n}-byte header block, capacity 0', 4, **kw)
+    J += neighbourhood_families(P, G, tier, **kw)
+    return J
+
+
+def neighbourhood_families(P, G, tier, **kw):
+    """short symbolic windows at the places where the header options act (before/after the colon, value start and end, line
+    start, fold points), inside otherwise concrete messages, with the header options symbolic"""
+    J = []
+    top = T(tier, 4, 6); bud = T(tier, 80, 600)
+    tm = [('colon', 'resp', RESP_LINE + b'Na', b'v\r\n\r\n', RESP_HDR_SYM), ('colon-req', 'req', REQ_LINE + b'Na', b'v\n\n', REQ_HDR_SYM),
+          ('value-start', 'resp', RESP_LINE + b'N:', b'v\r\n\r\n', RESP_HDR_SYM), ('value-end', 'resp', RESP_LINE + b'N:v', b'\r\n\r\n', RESP_HDR_SYM),
+          ('after-eol', 'resp', RESP_LINE + b'N:v\r\n', b'w\r\n\r\n', RESP_HDR_SYM), ('line-start', 'resp', RESP_LINE, b'N:v\r\n\r\n', RESP_HDR_SYM),
+          ('second-line', 'req', REQ_LINE + b'A:b\r\n', b':v\r\n\r\n', REQ_HDR_SYM)]
+    for nm, kind, pre, suf, fl in tm:
+        J += deepen(P, G, 'nb-' + nm, lambda n, kind=kind, pre=pre, suf=suf, fl=fl: sc(kind, n, prefix=pre, suffix=suf, api='cfg', fl=fl, cap=2),
+                    range(1, top + 1), bud, f'{kind} {pre!r} + ' + '{n} symbolic bytes + ' + f'{suf!r}, header options symbolic', 3, **kw)
     return J
 
 
